@@ -1,6 +1,7 @@
 package props
 
 import (
+	"sync/atomic"
 	"context"
 	"fmt"
 	"io"
@@ -297,6 +298,24 @@ func countCloseReqs(p probe, s2c []byte) int {
 	return n
 }
 
+// c05WriteSplit writes a probe's bytes to a fresh connection. Two of three probes longer than 16 bytes are
+// written in two pieces with a pause, the cut cycling through every position 1..15 INSIDE the first 16 bytes
+// (the replay signature): a server that consults its replay record before it has read the whole header sees a
+// short first read (seeded C06-6). With io.ReadFull on the server side the split is invisible.
+var c05SplitCounter atomic.Int32
+
+func c05WriteSplit(cc io.Writer, data []byte) {
+	n := int(c05SplitCounter.Add(1))
+	if len(data) <= 16 || n%3 == 0 {
+		cc.Write(data)
+		return
+	}
+	k := 1 + n%15
+	cc.Write(data[:k])
+	time.Sleep(15 * time.Millisecond)
+	cc.Write(data[k:])
+}
+
 // probeTCP sends one probe on a fresh connection and measures the server's reaction. `want` is the
 // model's prediction, used ONLY to know which positive completion signals to wait for (a prediction the
 // server does not fulfil within the time-out is measured as it is, and reported as a disagreement).
@@ -310,7 +329,7 @@ func (pw *probeWorld) probeTCP(p probe, want modelReply) measured {
 	}
 	data := core.UnHex(p.Data)
 	if len(data) > 0 {
-		cc.Write(data)
+		c05WriteSplit(cc, data)
 	}
 	if p.EOF {
 		cc.CloseWrite()
